@@ -626,7 +626,10 @@ class Arc(Term):
         r = e - s
         c = s + r
         sign = -1 if s < e else 1
-        x = c + sign * np.sqrt(r**2 - np.square(y * r / h))
+        radicand = r**2 - np.square(y * r / h)
+        # within the height, a radicand slightly below zero is only rounding (eg, y one ulp below a height of 0.999)
+        radicand = np.where(np.abs(y) <= h, np.maximum(radicand, 0.0), radicand)
+        x = c + sign * np.sqrt(radicand)
         return x  # type: ignore
 
     def is_monotonic(self) -> bool:
